@@ -77,7 +77,12 @@ def mk(key, kind, d, ts, n, poison=None):
         tags = tags + [["e", {"x": 1}]]
     elif poison == "huge-kind-tag":
         tags = tags + [["k", None]]
-    return ref.make_event(key, kind=kind, created_at=ts, tags=tags, content="v%d" % n)
+    deleg = None
+    if poison is None and n % 7 == 3:
+        # a version signed on behalf of the OTHER author (NIP-26 delegation): the address is still the signer's
+        other = ref.key_from_seed("c09-b" if key.pk == ref.key_from_seed("c09-a").pk else "c09-a")
+        deleg = (other, "kind=%d" % kind)
+    return ref.make_event(key, kind=kind, created_at=ts, tags=tags, content="v%d" % n, delegation=deleg)
 
 
 def perm_histories(r, count):
